@@ -125,6 +125,28 @@ def tests():
         "ll + ull; l * ul; s + us; sc - uc; c * sc; i / ll; u % ull; ull << s; ll >> uc; ul & us; l ^ ll; ull | c; ll < u; ull == i; l != ul;",
         "f + d; d * ld; ld / f; f - i; ld + ull; d < f; ld == i; f != c; -ld; +f; !ld; f ? 1 : 2; i = f; i = ld; f = d; d = ld; ld = f;",
     ]
+    # fourth pass: typedef'd and qualified aggregates, function pointers in aggregates, conditional operator with qualified / void / null
+    # operands, comparisons of qualified pointers, integer / pointer mixes that ARE valid
+    extra3_stmts = [
+        "ts.m;", "pts->m;", "ts.arr[1];", "pts->next->m;", "(*pts).o;", "ts.next = pts;", "ts.next = &st;", "pts = ts.next;", "ts = *pts;", "i = ts.m + pts->m;", "pts->arr[0] = ts.arr[1];", "&ts;", "&pts->m;", "sizeof ts;", "sizeof *pts;",
+        "tp = p;", "p = tp;", "*tp = 1;", "tp[1] = 2;", "i = *tp + tp[0];", "tp++;", "tp - p;", "tp == p;", "tp = a;", "tp = &ti;", "ti = *tp;", "tc = 'a';", "td = tc + ti;", "ti += tc;", "tp = &i;",
+        "cp == cp;", "cp < cp;", "cp - cp;", "cp + 1;", "i = *cp;", "i = cp[1];", "cp = cp + 1;", "cp++;", "ccp == pc;", "ccp - pc;", "pc == ccp;", "cvp == cp;", "cvp != vp;", "kp == cp;", "kp - p;", "*kpp == kp;", "kpp == kpq;", "**kpp = 1;", "i = **kpq;",
+        "i ? cp : p;", "i ? p : cp;", "i ? cvp : vp;", "i ? vp : cvp;", "i ? cp : 0;", "i ? 0 : cp;", "i ? ccp : pc;", "i ? cvp : p;", "i ? p : cvp;", "i ? kp : p;", "(i ? cp : p)[0];", "*(i ? cp : p);", "i ? ci : vi;", "i ? cc : c;", "i ? cd : d;",
+        "i ? (void *)0 : p;", "i ? p : (void *)0;", "i ? (void *)0 : (void *)0;", "i ? vp : (void *)0;", "i ? fp : 0;", "i ? 0 : fp;", "i ? fp : f1;", "i ? f1 : f1;", "i ? fpv : fvoid;", "(i ? f1 : fp)(1);",
+        "p == (void *)0;", "(void *)0 != p;", "vp == (void *)0;", "fp == (void *)0;", "fp != 0;", "0 != fp;", "!fp;", "fp && p;", "ps == (void *)0;", "ps != 0;", "pu == 0;", "pp == 0;", "*pp == 0;", "pp != (void *)0;", "st.next == 0;", "st.next != ps;", "ps->next == &st;",
+        "i = (p != 0) + (q == 0);", "i = !p + !q;", "i = (p < q) - (p > q);", "i = p == q && q == a;", "b = p;", "b = !p;", "b = p && q;", "b = fp;", "b = ps;", "b = st.next;", "b = pc;", "b = \"s\";", "b = a;", "b = f1;",
+        "c = c + 1;", "c++;", "c += 'a';", "sc = -sc;", "uc = ~uc;", "s = s << 1;", "us = us >> 1;", "c = c & 0x7f;", "uc |= 0x80;", "s ^= s;", "c = !c;", "c = c && c;", "c = c < c;", "c = c ? c : c;", "c = (c, c);", "c = sizeof c;", "c = a[c];", "c = *pc + pc[c];",
+        "e & K2;", "e | 1;", "e ^ e2;", "~e;", "e << 1;", "e >> K1;", "e % 2;", "e / K2;", "e * e2;", "e - K1;", "-e;", "+e;", "!e;", "e && e2;", "e || i;", "e ? e : e2;", "e = e ? K1 : K2;", "i = e == K1 ? 1 : 2;", "a[e] = e;", "p + e;", "p[e];", "e = a[K1];", "i = sizeof e;", "f1(e + 1);", "d = e;", "d = e * 1.5;", "e = (enum E)(e + 1);",
+        "b & 1;", "b | b;", "b ^ 1;", "b << 2;", "b >> b;", "b % 2;", "b * 3;", "b / 1;", "b - b;", "b < b;", "b == 1;", "b != b;", "b && 1;", "b || 0;", "b ? i : c;", "a[b];", "p + b;", "f1(b);", "fd(b);", "d = b;", "d = b * 2.5;", "b = b + 1;", "b -= 1;", "b *= 2;", "b |= 1;", "b <<= 1;", "--b;", "b--;",
+        "st.next->next = ps;", "ps->next->next->m = 1;", "*st.next = st2;", "*ps->next = *ps;", "st.next[0].m = 1;", "(*st.next).m = 2;", "(&*ps)->m = 3;", "(&st)->next = &st2;", "st2.next = st.next->next;", "i = st.next->arr[st.m];", "ps = ps->next ? ps->next : ps;", "while (ps) ps = ps->next;", "for (ps = &st; ps; ps = ps->next) i += ps->m;",
+        "un.m = un.o;", "un.o = un.m;", "un = un;", "*pu = un;", "pu = &un;", "pu->m++;", "i = pu->m + un.m;", "d = pu->o * un.o;", "&un.m == (int *)&un;", "(void *)&un == (void *)&un.o;", "sizeof un;", "sizeof pu->o;", "pu == &un;", "!pu;",
+        "fp = fp;", "fp = i ? f1 : fp;", "fp = (fp);", "fp = *fp;", "fp = **f1;", "fp = &*f1;", "fpv = fvoid;", "fpv();", "(*fpv)();", "(fpv)();", "fpv = i ? fvoid : fpv;", "i = fp == f1 || fp == 0;", "i = (fp ? fp : f1)(3);", "i = (*fp)(f1(1));", "i = fp(fp(fp(1)));",
+        "{ struct { int (*cb)(int); void (*v)(void); } h; h.cb = f1; h.v = fvoid; h.cb(1); h.v(); (*h.cb)(2); i = h.cb(3) + 1; }", "{ struct { int *q; int **qq; } h; h.q = p; h.qq = &h.q; **h.qq = 1; *h.q = 2; i = *h.q + **h.qq; }",
+        "{ int (*tab[3])(int); int k; for (k = 0; k < 3; k++) tab[k] = f1; i = tab[1](2); i = (*tab[2])(3); fp = tab[0]; }", "{ struct S *arr2[2]; arr2[0] = &st; arr2[1] = ps; i = arr2[0]->m + arr2[1]->arr[0]; ps = arr2[i]; }",
+        "{ char buf[8]; char *w; w = buf; *w = 'a'; w[1] = 0; buf[2] = *w; pc = buf + 1; i = w - buf; i = sizeof buf; }", "{ double mat[2][2]; mat[0][0] = 1; mat[1][1] = mat[0][0] * 2; d = mat[0][1] + **mat; pd = mat[1]; pd = &mat[0][0]; }",
+        "{ const int k = 1; const int *pk; int r; pk = &k; r = k + *pk; r = k * 2; i = r; cp = pk; }", "{ volatile int v; int r; v = 1; r = v; v++; v += r; r = v * 2; i = r; }", "{ long n; unsigned long m; n = i; m = n; n = m + 1; m = sizeof n; l = n; ul = m; }",
+        "{ unsigned char by; int r; by = 255; r = by + 1; by = r; by++; r = by << 8 | by; r = ~by & 0xff; i = r; }", "{ float g; double h; g = 1; h = g; g = h; g = g * 2 + 1; h = g / 3; h = -g; i = g < h; i = g == 1; d = h; }",
+    ]
     call_stmts = [
         "f0();", "f1(1);", "f1(i);", "f1(c);", "f1(d);", "f1('a');", "f1(K1);", "f1(f0());", "f1(f1(1));", "g2(1, 2.0);", "g2(i, i);", "g2(c, f);", "fv(1);", "fv(1, 2);", "fv(1, 2.0, \"s\", p);", "fv(i, c, s, f);", "fvoid();", "fd(1);", "fd(f);", "fd(fd(d));",
         "fp1(p);", "fp1(a);", "fp1(&i);", "fp1(0);", "fp1(vp);", "fp1(tp);", "fp1(&st.m);", "fp1(st.arr);", "fvp(p);", "fvp(pc);", "fvp(vp);", "fvp(0);", "fvp(&st);", "fvp(ps);", "fvp(a);", "fvp(\"s\");", "fcc(pc);", "fcc(ccp);", "fcc(\"lit\");", "fcc(ca);", "fcc(0);",
@@ -142,7 +164,7 @@ def tests():
             "{ const int k = 1; i = k; }", "{ int k; k = i; (void)k; }", "{ _Static_assert(1, \"m\"); }", "{ int k[3]; k[0] = 1; }", "{ int n = 3; int vla[n]; vla[0] = 1; }", "{ char k = 'x'; int m = k; m; }", "{ unsigned k = 1; k << 2; }", "{ long long k = 1; k + 1; }",
             "{ float k = 1; k * 2; }", "{ double k = 1, m = 2; k / m; }", "{ int k = 1, *m = &k; *m; }", "{ int k = sizeof(int[3]); k; }", "i = ((i));", "i = (int)(char)(long)d;", "d = (double)(int)d;", "(void)0;", "(void)(i + 1);", "i = __func__[0];", "i = (int)sizeof(st);",
             "ti = ti + 1;", "ti++;", "ti = i;", "i = ti;", "ti << 1;", "ti % 2;", "tc = 'a';", "tc + 1;", "td = 1.5;", "td * 2;", "td = ti;", "{ T1 k = 1; T2 m = k; T3 n = m; n; }", "ti ? tc : td;", "a[ti];", "p + ti;", "f1(ti);", "{ T3 *ptx = &ti; *ptx; }", "p = &ti;", "{ T3 at[2]; at[0] = 1; }"]
-    for sgroup, name in ((ptr_stmts, "ptr"), (struct_stmts, "struct"), (call_stmts, "call"), (null_stmts, "null"), (extra_stmts, "extra"), (extra2_stmts, "extra2"), (misc, "misc")):
+    for sgroup, name in ((ptr_stmts, "ptr"), (struct_stmts, "struct"), (call_stmts, "call"), (null_stmts, "null"), (extra_stmts, "extra"), (extra2_stmts, "extra2"), (extra3_stmts, "extra3"), (misc, "misc")):
         for s in sgroup:
             out.append(("%s:%s" % (name, s), s))
     # ---- composition: every producer of a value class inside every consumer that needs that class (a wrong RESULT TYPE of an accepted
